@@ -261,20 +261,27 @@ func syncStateRule(p *chk.Prog, r *chk.Report) {
 	n := 0
 	for _, f := range p.FuncsIn(ctrlPkg) {
 		g := f.Graph()
-		var switches []*ast.SwitchStmt
-		chk.InspectNoLit(f.Body, func(nd ast.Node) bool {
-			if sw, ok := nd.(*ast.SwitchStmt); ok && sw.Tag != nil {
-				if t := f.Info().TypeOf(sw.Tag); t != nil && t.String() == chk.Module+"/"+ctrlPkg+".SyncState" {
-					switches = append(switches, sw)
-				}
+		// the places where a handler's SyncState result is obtained (switch or if-chain: the form is free)
+		var calls []chk.Site
+		for _, c := range g.FindPat("RECV.Handler(ETC)") {
+			if t := f.Info().TypeOf(c.Node.(ast.Expr)); t != nil && t.String() == chk.Module+"/"+ctrlPkg+".SyncState" {
+				calls = append(calls, c)
 			}
-			return true
-		})
-		for _, sw := range switches {
+		}
+		for _, hc := range calls {
 			n++
 			r.Saw(f)
-			tagOK := definedBy(g, "RECV.Handler(ETC)")(sw.Tag)
-			x.Check("switch@"+f.Name()+":tag-is-handler-result", sw.Pos(), tagOK, "", "the switch does not inspect the handler's result")
+			call := hc.Node.(*ast.CallExpr)
+			isRes := func(e ast.Expr) bool {
+				e = ast.Unparen(e)
+				if e == ast.Expr(call) {
+					return true
+				}
+				return ast.Unparen(f.Resolve(e)) == ast.Expr(call)
+			}
+			inspected := g.EdgeImpliesAny(g.GPat(true, "T == C", chk.H("T", isRes), chk.H("C", isObjNamed(f, ctrlPkg+".SyncStateError")))) ||
+				g.EdgeImpliesAny(g.GPat(false, "T == C", chk.H("T", isRes), chk.H("C", isObjNamed(f, ctrlPkg+".SyncStateError"))))
+			x.Check("switch@"+f.Name()+":tag-is-handler-result", call.Pos(), inspected, "", "the handler's result is not inspected")
 			retryFlag := syncRetryFlag(f, g)
 			isRetryRet := func(nd ast.Node) bool {
 				rs, ok := nd.(*ast.ReturnStmt)
@@ -294,9 +301,9 @@ func syncStateRule(p *chk.Prog, r *chk.Report) {
 				{"SyncStateError", func(nd ast.Node) bool { return isRetryRet(nd) || setFlag(nd) }, "a retry"},
 				{"SyncStateReprocessAll", func(nd ast.Node) bool { return reload(nd) || setFlag(nd) }, "a reload of all services"},
 			} {
-				es := g.EdgesImplying(g.GPat(true, "T == C", chk.H("T", func(e ast.Expr) bool { return f.SameExpr(e, sw.Tag) }), chk.H("C", isObjNamed(f, ctrlPkg+"."+want.cst))))
+				es := g.EdgesImplying(g.GPat(true, "T == C", chk.H("T", isRes), chk.H("C", isObjNamed(f, ctrlPkg+"."+want.cst))))
 				if len(es) == 0 {
-					x.Fail("switch@"+f.Name()+":"+want.cst+":case", sw.Pos(), "no case for "+want.cst)
+					x.Fail("switch@"+f.Name()+":"+want.cst+":case", call.Pos(), "no case for "+want.cst)
 					continue
 				}
 				for _, e := range es {
@@ -313,16 +320,27 @@ func syncStateRule(p *chk.Prog, r *chk.Report) {
 						okk = false
 					}
 				}
-				x.Check("switch@"+f.Name()+":retry-flag-forces-errRetry", sw.Pos(), okk, "", "the retry flag does not lead to `return …, errRetry`")
+				x.Check("switch@"+f.Name()+":retry-flag-forces-errRetry", call.Pos(), okk, "", "the retry flag does not lead to `return …, errRetry`")
 			}
 		}
 	}
-	x.Check("switches-found", 0, n >= 5, "", "fewer SyncState switches than on the confirmed tree (5)")
+	x.Check("switches-found", 0, n >= 5, "", "fewer places that inspect a handler's SyncState result than on the confirmed tree (5)")
 }
 
 // syncRetryFlag returns the boolean local set in a case of the switch and
 // tested afterwards (reprocessAll's `retry`), or nil.
 func syncRetryFlag(f *chk.Fn, g *chk.Graph) types.Object {
+	// a handler result of this function
+	isRes := func(e ast.Expr) bool {
+		c, ok := ast.Unparen(f.Resolve(e)).(*ast.CallExpr)
+		if !ok {
+			return false
+		}
+		t := f.Info().TypeOf(c)
+		return t != nil && t.String() == chk.Module+"/"+ctrlPkg+".SyncState" && f.MatchWith("RECV.Handler(ETC)", c) != nil
+	}
+	failed := chk.GOr(g.GPat(true, "T == C", chk.H("T", isRes), chk.H("C", isObjNamed(f, ctrlPkg+".SyncStateError"))),
+		g.GPat(true, "T == C", chk.H("T", isRes), chk.H("C", isObjNamed(f, ctrlPkg+".SyncStateReprocessAll"))))
 	var flag types.Object
 	for _, s := range g.Find(f.IsAssignPat("R", "true")) {
 		as := s.Node.(*ast.AssignStmt)
@@ -330,7 +348,7 @@ func syncRetryFlag(f *chk.Fn, g *chk.Graph) types.Object {
 			continue
 		}
 		o := f.ObjOf(as.Lhs[0])
-		if v, ok := o.(*types.Var); ok && !v.IsField() && g.EdgeImpliesAny(chk.GBool(true, f.IsObj(o))) {
+		if v, ok := o.(*types.Var); ok && !v.IsField() && g.Dominated(s, failed) && g.EdgeImpliesAny(chk.GBool(true, f.IsObj(o))) {
 			flag = o
 		}
 	}
